@@ -4,6 +4,7 @@ let dispatch (line : string) : string =
   match Util.split_on ' ' line with
   | "c15" :: rest -> S_c15.run rest
   | "rd" :: rest -> S_rd.run rest
+  | "wr" :: rest -> S_wr.run rest
   | s :: _ -> failwith ("unknown stream " ^ s)
   | [] -> ""
 
